@@ -23,6 +23,7 @@ META = {
     "assumptions": [],
 }
 META["claim"] += " " + 'Also: pings without a ping_timeout against silent and slow peers, keepalive on re-established connections and in a second run, seeded random interleavings of ping thread and loop for a promptly answering peer, and supervision through an external dispatcher.'
+META["claim"] += " " + 'Round 4: a process-wide default socket timeout below / above the ping timeout; an on_pong handler that takes longer than the ping timeout.'
 
 RATIOS = [1.1, 1.5, 1.9, 2, 2.5, 3, 5, 10]
 TIMEOUTS = [0.5, 1, 2, 3]
